@@ -567,6 +567,8 @@ class Interp:
             raise Unsupported("switch on symbolic integer with targets %s" % vals)
         if k == "bool":
             return int(v[1])
+        if k == "boolsym":
+            raise Unsupported("branch on undecided comparison %s" % v[1])
         return self.discr_of(st, v)
 
     # --- forking
@@ -808,7 +810,8 @@ class Interp:
                             if kz is None:
                                 raise NeedFork(("zero", pp))
                             return BOOL((not kz) if o == "Lt" else kz)
-                raise Unsupported("comparison %s of symbolic scalars %r, %r" % (op, pa, pb))
+                # undecided comparison: only an error if somebody branches on it (overflow-check conditions are never branched on)
+                return ("boolsym", "%s(%r,%r)" % (op, pa, pb))
             if base in ("Div", "Rem"):
                 # primitive division of magnitudes -> Q/R symbols
                 q, r = self.divsyms(st, pa, pb)
